@@ -499,6 +499,16 @@ void execute_c09(const Plan &plan, Verdict &v) {
     instrument_install(w2, io);
     w1.seal();
     w2.seal();
+    // The fresh twin runs B first, before the history has touched anything in the process (errno, any file-scope
+    // state of the library), exactly as a fresh process would; the segmentation of B is fixed by the last `cuts` op.
+    for (const Op &op : plan.ops)
+        if (op.kind == "cuts") cuts = op.a;
+    {
+        size_t c2 = 0;
+        errno = 0;
+        deliver(w2, B, cuts, c2);
+    }
+    cuts.clear();
     size_t ci = 0;
     uint64_t clock = 0;
     std::string last_history_op;
@@ -535,10 +545,8 @@ void execute_c09(const Plan &plan, Verdict &v) {
     size_t m0 = w1.msgs.size(), o0 = w1.out.size();
     int f0 = w1.flushes;
     std::vector<long> bcuts = cuts;
-    size_t c1 = 0, c2 = 0;
+    size_t c1 = 0;
     deliver(w1, B, bcuts, c1);
-    errno = 0;   // the fresh context lives in a fresh process: no conversion before it has left ERANGE behind
-    deliver(w2, B, bcuts, c2);
     std::string t1 = observable_trace(w1, m0, true, (size_t) -1, true), t2 = observable_trace(w2, 0, true, (size_t) -1, true);
     std::string e1 = slice_errs(w1, m0), e2 = slice_errs(w2, 0);
     if (reads_status(w1, m0) || reads_status(w2, 0))
